@@ -34,7 +34,13 @@ ASSUMPTIONS = [
     "deliveries that hit the x690 indefinite-length guard are attributed to known finding x690_indefinite_no_terminator (C20), counted and continue as exceptions",
 ]
 EXHAUSTIVE = lambda tier: "every single-bit flip of every base response (%d bases)" % len(bases(tier))
-REQUIRED_CLASSES = {"forgery": 0.01}
+_REQUIRED_BASE = {"forgery": 0.01}
+# generator health of the newer case families (quick tier: the thorough tier dilutes them with enumerated units)
+_REQUIRED_QUICK = {'after_other_user': 0.015}
+
+
+def REQUIRED_CLASSES(tier):
+    return dict(_REQUIRED_BASE, **(_REQUIRED_QUICK if tier == "quick" else {}))
 
 TBL = (1, 3, 6, 1, 4, 1, 66, 2, 1)
 SCALAR = (1, 3, 6, 1, 4, 1, 66, 1, 0)
